@@ -9,7 +9,12 @@ validates what elaborate() did.
      the writer worklist, invariant OpAgrees) and prints defects / nets.
   2. code -> spec: driver kind x second driver kind x overlap shape x hierarchical position, the
      assignment-operator, port-rule, loop, self/duplicate connect, type-mismatch, loop-back and
-     no-writer families, plus mutated random statement sets, are printed as real construct()s for
+     no-writer families, plus mutated random statement sets, plus the @s.func helper families (the
+     footprint of a block includes that of every helper in its transitive call closure: two
+     blocks reaching one writing helper, a helper-driver against every other driver kind and
+     overlap shape, port rules through helpers, diamonds / shared read-only helpers / dead
+     helpers as legal controls, twins of other designs with writes moved into helpers), are
+     printed as real construct()s (helpers as `@s.func def fnN()` in any position) for
      every statement permutation x side flip and elaborated; ElabTrace requires: defects = {} =>
      elaborate() returns (which nets and writers it builds is C08's subject: C08 runs the legal
      designs of this grid too); otherwise an exception of the image of SOME defect present
@@ -51,14 +56,26 @@ def grid(tier):
         core = [core[i] for i in sorted(R.sample(range(len(core)), 420))]
         cells = core + [rest[i] for i in sorted(R.sample(range(len(rest)), 60))]
     rnd = g.random_designs(60 if quick else 1500, R, mut_rate=0.85)
-    ds = g.fixed_shapes() + g.overlap_net_shapes() + cells + extras + rnd
+    # @s.func helpers: the call-graph shapes (all of them in both tiers), the grid cells with a
+    # driver that writes through helpers, port rules / operators / recursion through helpers, and
+    # metamorphic twins (writes of a block moved into helpers) of the other designs
+    fcells = g.func_grid()
+    nfgrid = len(fcells)
+    if quick:
+        RF = rng("c09-func-grid")
+        fcells = [fcells[i] for i in sorted(RF.sample(range(len(fcells)), 130))]
+    fextras = g.func_extras()
+    twins = g.helperized(cells + extras, 0.08 if quick else 0.15) + g.helperized(rnd, 0.5)
+    ds = g.fixed_shapes() + g.overlap_net_shapes() + g.func_shapes(core=quick) + cells + fcells + extras + fextras + rnd + twins
     seen, out = set(), []
     for d in ds:
         k = d.key()
         if k not in seen:
             seen.add(k)
             out.append(d)
-    return out, len(g.c09_grid()), len(extras)
+    return out, len(g.c09_grid()), len(extras), {"func_grid_cells_total": nfgrid, "func_grid_cells_run": len(fcells),
+                                                 "func_call_shape_designs": len(g.func_shapes(core=quick)),
+                                                 "func_extra_designs": len(fextras), "helperized_twins": len(twins)}
 
 
 def _canaries(res, info):
@@ -99,7 +116,7 @@ def _canaries(res, info):
 
 def run(res, tier):
     quick = tier == "quick"
-    designs, ngrid, nextra = grid(tier)
+    designs, ngrid, nextra, fnotes = grid(tier)
     cap = 48 if quick else 240
     with scratch():
         info = g.check_designs(res, designs, prop="C09", cap=cap, nsim=0, ncyc=0,
@@ -122,6 +139,23 @@ def run(res, tier):
             "OpU", "OpF", "OpFNT", "LamClash"}
     if need - set(classes):
         raise MachineryError("defect classes never produced by the grid: %s" % sorted(need - set(classes)))
+    # the call-graph shapes have their class by construction: Elab.tla must agree (guards the spec's
+    # treatment of helpers independently of pymtl3), and every one of them must have been run
+    byshape = {}
+    for D, e in zip(designs, exp):
+        if D.tag.startswith("func/") and D.tag.split("/")[1] in g.FUNC_CALL_SHAPES:
+            want = g.FUNC_CALL_SHAPES[D.tag.split("/")[1]]
+            if e["defects"] != (set() if want == "ok" else {want}) or e["unspec"]:
+                raise MachineryError("Elab.tla classifies the %s design %s as %s / %s" %
+                                     (want, D.key(), sorted(e["defects"]), sorted(e["unspec"])))
+            byshape[D.tag.split("/")[1]] = byshape.get(D.tag.split("/")[1], 0) + 1
+    if set(byshape) != set(g.FUNC_CALL_SHAPES):
+        raise MachineryError("helper call-graph shapes never run: %s" % sorted(set(g.FUNC_CALL_SHAPES) - set(byshape)))
+    res.note("helper_call_shapes", dict(sorted(byshape.items())))
+    for k, v in fnotes.items():
+        res.note(k, v)
+    nhelper = sum(1 for D in designs if D.has_helpers())
+    res.note("designs_with_helper_functions", nhelper)
     nlegal = res.notes.get("legal_designs", 0)
     if nlegal < 40:
         raise MachineryError("only %d legal designs in the grid" % nlegal)
@@ -134,8 +168,12 @@ def run(res, tier):
     res.note("variant_cap", cap)
     res.note("rule", "a case is one design: a cell (position in %s) x (driver A) x (driver B in none/%s) x overlap "
              "shape (%s, 2-6 view pairs each) of the %d-cell grid (quick: 480 of them), the %d operator / port-rule / "
-             "loop / self- and duplicate-connect / type-mismatch / loop-back / no-writer designs, and mutated random "
-             "statement sets; each is elaborated for every statement permutation x side flip up to the cap"
+             "loop / self- and duplicate-connect / type-mismatch / loop-back / no-writer designs, mutated random "
+             "statement sets, and the @s.func helper families: call-graph shapes over one writing helper (two blocks "
+             "reaching it directly / through wrappers / through a shared wrapper, one block through a diamond / twice "
+             "/ a chain, shared read-only helpers, dead helpers) x 3 positions x 4 views, grid cells with a driver "
+             "that writes through helpers, port rules / operators / call cycles through helpers, and twins of the "
+             "other designs with some writes of a block moved into helpers; each is elaborated for every statement permutation x side flip up to the cap"
              % ("/".join(g.C09_POS), "/".join(g.C09_DRIVERS), "/".join(g.C09_SHAPES), ngrid, nextra))
     res.assume("which of several coexisting defects is reported is not specified: any exception class in the image "
                "of a defect present is accepted")
@@ -143,4 +181,8 @@ def run(res, tier):
     res.assume("two overlapping members of one signal driven by one net: two drivers of the shared bits (MultiWriter)")
     res.assume("connecting the same pair twice / a net with a member overlapping the net's own writer: outcome only "
                "recorded")
+    res.assume("the writes / reads of an @s.func helper belong to every update block whose transitive call closure "
+               "contains it (one driver per block, however many call paths); a helper no block reaches drives nothing")
+    res.assume("an assignment operator inside a helper that is wrong for the block kind that reaches it, and helpers "
+               "calling each other in a cycle: the statement is silent, outcome only recorded")
     res.assume("designs whose permutations x flips exceed the cap (%d) are sampled" % cap)
